@@ -116,12 +116,15 @@ Sys gen_small(Rng& r, int kind, int nmax) {
       if (r.coin(1, 4)) { double t = dyadic(r, 0, 2, 8); for (int i = 0; i < n; i++) if (xs[i] != 0) xs[i] = t; } // equal components
       for (int i = 0; i < n; i++) { double s = -g[i]; for (int j = 0; j < n; j++) s += A[i * n + j] * xs[j]; b[i] = s; } // exact: small dyadics
       break; }
-    case 3: {           // badly scaled: D A D, D b with D = diag(2^e), e in [-20, 20]  (1e-6 .. 1e6)
+    case 3: case 7: {   // badly scaled: D A D, D b with D = diag(2^e); kind 3: |e| <= 10 (entries of A over 1e-6 .. 1e6),
+                        // kind 7: |e| <= 20 (D itself over 1e-6 .. 1e6; column norms 1e12 apart: below SuiteSparseQR's default
+                        // rank tolerance, so Lawson-Hanson is not run on these)
       gram(n, m, B, eps, A);
       for (auto& e : b) e = dyadic(r, -4, 4, 16);
       std::vector<int> e(n);
       int style = r.range(0, 2);
-      for (int i = 0; i < n; i++) e[i] = style == 0 ? r.range(-20, 20) : (style == 1 ? (r.coin() ? 20 : -20) : r.range(-20, 0));
+      int E = (kind == 3) ? 10 : 20;
+      for (int i = 0; i < n; i++) e[i] = style == 0 ? r.range(-E, E) : (style == 1 ? (r.coin() ? E : -E) : r.range(-E, 0));
       for (int i = 0; i < n; i++) { b[i] = std::ldexp(b[i], e[i]); for (int j = 0; j < n; j++) A[i * n + j] = std::ldexp(A[i * n + j], e[i] + e[j]); }
       break; }
     default: {          // 4: arbitrary doubles (rounded Gram matrix; positive definiteness certified exactly by the driver)
@@ -247,7 +250,8 @@ void emit(std::ofstream& fc, std::ofstream& fi, long id, const Sys& s, double kk
   for (int solver = 0; solver < 5; solver++) {
     if (s.ls && solver != 4) continue;
     if (!s.ls && solver == 4) continue;
-    if (s.kind == 5 && solver == 0 && s.n > 150) continue;   // Lawson-Hanson frees one coefficient per QR solve: too slow for the quick tier
+    if (s.kind == 5 && solver == 0 && s.n > 150) continue;
+    if (s.kind == 7 && solver == 0) continue;   // Lawson-Hanson frees one coefficient per QR solve: too slow for the quick tier
     double tol = (solver == 3) ? (double)s.n * DBL_EPS * 1e5 : ((solver == 1 || solver == 2) ? kkt_tol : ((id % 2) ? 1e-9 : 0.0));
     int retries = 0;
     std::string r = run_forked(s, solver, tol, hang_s, retries);
@@ -284,8 +288,9 @@ int main(int argc, char** argv) {
   long id = 0;
   int nmax_ref = getenv("PSV_NNLS_NMAX") ? atoi(getenv("PSV_NNLS_NMAX")) : 12;
   for (long k = 0; k < nsmall; k++) {
-    int kind = (int)(k % 6);
-    Sys s = (kind == 5) ? gen_ls(r, nmax_ref) : gen_small(r, kind, (k % 7 == 0) ? nmax_ref : std::min(nmax_ref, 9));
+    int kind = (int)(k % 7);
+    if (kind == 6) kind = 7;
+    Sys s = (kind == 5) ? gen_ls(r, nmax_ref) : gen_small(r, kind, (k % 5 == 0) ? nmax_ref : std::min(nmax_ref, 9));
     emit(fc, fi, id++, s, kkt_tol, hang_s, stats);
   }
   for (long k = 0; k < nlarge; k++) {
